@@ -117,6 +117,22 @@ def simpleOp (m : Mgr String) (id : Nat) (ls : List Label) : Mgr String × Strin
       let (z, e) := collect (finishClose y)
       out (m.set id z) "ok" "-" e
 
+/-- 64 chunks queued, nobody reads, the 65th push: not enabled (the frame loop blocks); after the
+    stream is closed (`closeBegin`, `closeEnd` — by STREAM_CLOSE/RESET of another loop, RemoveStream or a
+    local Close) the push aborts with io.EOF.  Computed by running the LTS; other streams are untouched
+    (`C18_close_targets_one`), so their operations complete. -/
+def stallAnswer : String :=
+  let fr : List (Frame String) := (List.range 65).map (fun i => Frame.data false (some (toString i)))
+  let x0 : S := init true fr
+  let labels : List Label := (List.replicate 64 [Label.hNext, .hStep, .hStep]).flatten ++ [.hNext, .hStep]
+  match run false x0 labels with
+  | none => "model-stuck"
+  | some x =>
+    if (MM.C18.step false x .hStep).isSome then "ok"   -- would not block
+    else match run false x [.lClose, .closeEnd, .hAbort] with
+      | some y => if y.dropped then "eof" else "ok"
+      | none => "timeout"
+
 def parseFrameArgs (fin hex mode : String) : Option (Frame String × Bool) :=
   let p : Option String := if hex == "-" then none else some hex
   match fin, mode with
@@ -130,6 +146,7 @@ def step (m : Mgr String) (line : String) : Mgr String × String :=
   match tokens line with
   | "reset" :: _ => out [] "ok" "-" "-"
   | ["race", _, _] => out m "race-ok" "-" "-"   -- C18_race_serializable: every interleaving ends CLOSED
+  | ["stall", _] => out m ("stall:" ++ stallAnswer ++ "/ok/ok/ok") "-" "-"
   | ["accept", i] =>
     let id := i.toNat!
     out (m.set id (init true [])) "ok" "-" "-"
@@ -231,6 +248,10 @@ def specStep (s : SpecSt) (l : String) : SpecSt × String :=
     | "reset" :: _ => ({}, "ok")
     | "race" :: _ =>
       (s, if implOut.startsWith "race-ok" then "ok" else "fail race-nonserial-outcome")
+    | "stall" :: _ =>
+      -- tearing down a stream whose frame loop is blocked, and working on another stream, must complete
+      (s, if implOut.startsWith "stall:eof/ok/ok/ok" then "ok"
+          else if (implOut.splitOn "timeout").length > 1 then "fail stall-deadlock" else "fail stall-wrong-answer")
     | kind :: i :: rest =>
       let id := i.toNat!
       match implOut.splitOn " | " with
@@ -253,6 +274,18 @@ def specStep (s : SpecSt) (l : String) : SpecSt × String :=
           | _, _ => t0
         let (t2, e1) := feed t1 mid cl
         let (t3, e2) := feed t2 end_ cl
+        -- 1b. a frame the stream layer accepted must have its effect: FIN is signalled, the payload is queued
+        let e0 : Option String :=
+          match kind, rest with
+          | "frame", [fin, hex, _] =>
+            if res != "ok" then none
+            else if fin == "1" && field mine "rf" != "1" then some "fin-not-signalled"
+            else if hex != "-" then
+              let before := (field ((s.last.lookup id).getD "") "n").toNat!
+              let taken := (if mid.startsWith "data:" then 1 else 0) + (if end_.startsWith "data:" then 1 else 0)
+              if (field mine "n").toNat! + taken == before + 1 then none else some "data-not-queued"
+            else none
+          | _, _ => none
         let s1 := setTrk s id t3
         -- 2. write refused after local FIN;  3. documented edges;  4. other streams untouched
         let e3 : Option String := dmp.foldl (fun acc e =>
@@ -266,11 +299,12 @@ def specStep (s : SpecSt) (l : String) : SpecSt × String :=
                 | some a, some b => if kind != "accept" && kind != "openreq" && !edge a b then some "bad-transition" else none
                 | _, _ => some "unparsable-output") none
         let s2 := { s1 with last := dmp }
-        match e1, e2, e3 with
-        | some e, _, _ => (s2, "fail " ++ e)
-        | _, some e, _ => (s2, "fail " ++ e)
-        | _, _, some e => (s2, "fail " ++ e)
-        | _, _, _ => (s2, "ok")
+        match e0, e1, e2, e3 with
+        | some e, _, _, _ => (s2, "fail " ++ e)
+        | _, some e, _, _ => (s2, "fail " ++ e)
+        | _, _, some e, _ => (s2, "fail " ++ e)
+        | _, _, _, some e => (s2, "fail " ++ e)
+        | _, _, _, _ => (s2, "ok")
       | _ => (s, "fail unparsable-output")
     | _ => (s, "bad-op")
   | _ => (s, "bad-op")
